@@ -914,6 +914,13 @@ def parallel_real_oracle(c, o, s, which):
                                       'its buffer of %d bytes (largest record %d bytes): buffer and recycled record sets grow with the input'
                                       % (m.group(1), cap, max(e[1] for e in ext)))
                     return v
+    if t[1][-1:] in ('5', '6') and par_tail != seq_tail:
+        # slow first worker: the reader's error reached the consumer before the result of the first set (observed three
+        # times in a row, see the harness); it has to be returned although the consumer closure would stop early
+        v.nontrivial = True
+        v.failures.append('a reader error that reached the consumer before the result of a slow earlier set was not returned: the call '
+                          'ended with %s, sequential reading with %s' % (par_tail[:60], seq_tail[:60]))
+        return v
     if 'errors' in which:
         if stop is None and par_tail != seq_tail:
             v.failures.append('parallel reading ended with %s, sequential reading with %s' % (par_tail[:80], seq_tail[:80]))
